@@ -42,10 +42,11 @@ def is_bridge_filtered(mac):
 
 
 class Flow(object):
-  __slots__ = ("in_port", "src", "dst", "tmpl", "out", "t_install", "t_touch", "idle", "hard")
+  __slots__ = ("in_port", "src", "dst", "tmpl", "out", "t_install", "t_touch", "idle", "hard", "epoch")
 
-  def __init__(self, in_port, src, dst, tmpl, out, now, idle, hard):
+  def __init__(self, in_port, src, dst, tmpl, out, now, idle, hard, epoch=None):
     self.in_port, self.src, self.dst, self.tmpl, self.out = in_port, src, dst, tmpl, out
+    self.epoch = epoch
     self.t_install = self.t_touch = now
     self.idle, self.hard = idle, hard
 
@@ -94,7 +95,9 @@ class Bridge(object):
     return r
 
   # ------------------------------------------------------------------ one hop
-  def judge(self, now, in_port, src, dst, ethertype, tmpl, packet_in, outs):
+  def judge(self, now, in_port, src, dst, ethertype, tmpl, packet_in, outs, epoch=None):
+    """epoch: frames with the same (not None) epoch were all looked up in the flow cache before the controller answered
+    any of them (back-to-back frames); a miss then says nothing about entries installed for earlier frames of the epoch."""
     v = []
     outs = list(outs)
     kind = ("filtered" if self._filtered(dst, ethertype) else
@@ -134,6 +137,10 @@ class Bridge(object):
       want = self.ideal(in_port, dst, ethertype, self.belief)
       if so == sorted(want_ideal):
         pass
+      elif epoch is not None and any(f.epoch == epoch and ([] if f.out is None else [f.out]) == so for f in live):
+        # back-to-back frames on a switch without a free buffer: the controller's packet_out goes through the table
+        # (OFPP_TABLE) and met an entry installed for an earlier frame of the same burst -- an older cached flow
+        self.stats["stale_hit"] += 1
       elif (so == sorted(want) and kind == "known" and dst in self.belief
             and self.belief[dst] != self.recent.get(dst) and self.belief[dst] in self.seen.get(dst, ())):
         # the controller acted on an address table that missed a frame which the switch forwarded from
@@ -150,13 +157,15 @@ class Bridge(object):
                   {"dst": kind, "shape": _shape(want_ideal, outs, in_port)}))
       # what the cache may hold from now on: follow what was observed
       if kind == "known":
+        # the miss proves that no entry for exactly this traffic was installed when the frame was looked up
         self.flows = [f for f in self.flows
-                      if not (f.src == src and f.dst == dst and f.tmpl == tmpl and f.in_port in (None, in_port))]
+                      if not (f.src == src and f.dst == dst and f.tmpl == tmpl and f.in_port in (None, in_port)
+                              and (epoch is None or f.epoch != epoch))]
         if not outs:
           self.stats["hold_down"] += 1
-          self.flows.append(Flow(None, src, dst, tmpl, None, now, self.hold, self.hold))
+          self.flows.append(Flow(None, src, dst, tmpl, None, now, self.hold, self.hold, epoch))
         elif len(outs) == 1:
-          self.flows.append(Flow(in_port, src, dst, tmpl, outs[0], now, self.idle, self.hard))
+          self.flows.append(Flow(in_port, src, dst, tmpl, outs[0], now, self.idle, self.hard, epoch))
     else:
       self.stats["hit"] += 1
       explained = [f for f in live if ([] if f.out is None else [f.out]) == so]
